@@ -22,6 +22,7 @@ CONFIGS = {'quick': ['default'], 'thorough': ['default', 'noalloc', 'simd', 'fas
 def run(rep, facts, tier):
     for c, f in facts.items():
         r_state.pairing(rep, f, c, 'R-STATE')
+        r_state.char_classes(rep, f, c, 'C12-classes')     # incl. pre-check/body agreement: no ESC $ B for a character that is then unmappable
         r_handle.run(rep, f, c)
         nb, ng = r_account.run(rep, f, c, 'R-ACCOUNT', lambda n: 'Encoder::' in n)
         rep.floor('R-ACCOUNT', 'encoder bodies with unit fetches', nb, 14, c)
